@@ -28,11 +28,31 @@ pub mod authenticate {
 //@extract src/ctap1.rs :: ^    pub struct Response\b :: nth=0 :: noderive
     }
 }
+pub mod cosey {
+    use vstd::prelude::*;
+    use crate::heapless_bytes::Bytes;
+    verus! {
+    /// cosey 0.3 `EcdhEsHkdf256PublicKey { pub x: Bytes<32>, pub y: Bytes<32> }` (scaffolding: the declaration as in the dependency)
+    pub struct EcdhEsHkdf256PublicKey { pub x: Bytes<32>, pub y: Bytes<32> }
+    }
+}
 pub mod register {
     use vstd::prelude::*;
     use super::Bytes;
+    use crate::cosey;
     verus! {
+    broadcast use {crate::heapless_bytes::Bytes::len_le_capacity};
 //@extract src/ctap1.rs :: ^    pub struct Response\b :: nth=1 :: noderive
+/*@contract new
+        ensures
+            // 65-byte public key = 0x04 || x || y (uncompressed point); the other parts are stored as given; never panics
+            r.public_key@ == seq![0x04u8] + public_key.x@ + public_key.y@,
+            r.header_byte == header_byte,
+            r.key_handle == key_handle,
+            r.signature == signature,
+            r.attestation_certificate == attestation_certificate,
+@*/
+//@extract src/ctap1.rs :: ^    impl Response \{ :: contracts=new
     }
 }
 
